@@ -377,6 +377,19 @@ func TestC17(t *testing.T) {
 				data = json.RawMessage(`{"ID":"not-a-number"}`) // typed unmarshal error
 			default:
 				m := map[string]any{"ID": id, "Trace": []string{}, "Extra": "e", "pad": json.RawMessage(jgen.Doc(r, false))}
+				// events written by older versions omit fields (decode leaves the zero value)
+				if r.IntN(3) == 0 {
+					delete(m, "Trace")
+				} else if r.IntN(4) == 0 {
+					m["Trace"] = []string{"seed"}
+				}
+				if r.IntN(4) == 0 {
+					delete(m, "Extra")
+				}
+				if r.IntN(10) == 0 {
+					delete(m, "ID")
+					id = 0
+				}
 				data, _ = json.Marshal(m)
 			}
 			ts := jgen.Timestamp(r)
